@@ -113,6 +113,11 @@ type LayerManager struct {
 func (r *LayerManager) cacheLayer(refspec reference.Spec, tocDigest digest.Digest, l layer.Layer) (_ layer.Layer, added bool) {
 	r.mu.Lock()
 	defer r.mu.Unlock()
+	return r.cacheLayerLocked(refspec, tocDigest, l)
+}
+
+// cacheLayerLocked is the same as cacheLayer but the caller must hold r.mu.
+func (r *LayerManager) cacheLayerLocked(refspec reference.Spec, tocDigest digest.Digest, l layer.Layer) (_ layer.Layer, added bool) {
 	if r.layer == nil {
 		r.layer = make(map[string]map[string]layer.Layer)
 	}
@@ -233,17 +238,16 @@ func (r *LayerManager) resolveLayer(ctx context.Context, refspec reference.Spec,
 		}
 	}
 	r.mu.Unlock()
-	defer func() {
-		r.mu.Lock()
+	// setResolveStatusLocked records the result of this resolution. r.mu must be held.
+	setResolveStatusLocked := func(err error) {
 		if r.resolveLayerCache == nil {
 			r.resolveLayerCache = make(map[string]map[string]error)
 		}
 		if r.resolveLayerCache[refspec.String()] == nil {
 			r.resolveLayerCache[refspec.String()] = make(map[string]error)
 		}
-		r.resolveLayerCache[refspec.String()][target.Digest.String()] = retErr
-		r.mu.Unlock()
-	}()
+		r.resolveLayerCache[refspec.String()][target.Digest.String()] = err
+	}
 
 	// Resolve this layer.
 	var esgzOpts []metadata.Option
@@ -259,6 +263,9 @@ func (r *LayerManager) resolveLayer(ctx context.Context, refspec reference.Spec,
 	}
 	l, err := r.resolver.Resolve(ctx, r.hosts, refspec, target, esgzOpts...)
 	if err != nil {
+		r.mu.Lock()
+		setResolveStatusLocked(err)
+		r.mu.Unlock()
 		return err
 	}
 	// Prefetch this layer. We prefetch several layers in parallel. The first
@@ -289,8 +296,14 @@ func (r *LayerManager) resolveLayer(ctx context.Context, refspec reference.Spec,
 		}()
 	}
 
-	// Cache this layer.
-	cachedL, added := r.cacheLayer(refspec, l.Info().TOCDigest, l)
+	// Cache this layer and record that it's resolved, atomically: release() of this
+	// layer by another client resets both and must not run in between, otherwise the
+	// layer would be recorded as resolved while it isn't cached anymore and every
+	// later lookup of it would fail.
+	r.mu.Lock()
+	cachedL, added := r.cacheLayerLocked(refspec, l.Info().TOCDigest, l)
+	setResolveStatusLocked(nil)
+	r.mu.Unlock()
 	if added {
 		r.metricsController.Add(key, cachedL)
 	} else {
@@ -315,7 +328,7 @@ func (r *LayerManager) release(ctx context.Context, refspec reference.Spec, tocD
 	i := r.refcounter[refspec.String()][tocDigest.String()]
 	if i <= 0 {
 		// No reference to this layer. release it.
-		delete(r.refcounter, tocDigest.String())
+		delete(r.refcounter[refspec.String()], tocDigest.String())
 		if len(r.refcounter[refspec.String()]) == 0 {
 			delete(r.refcounter, refspec.String())
 			delete(r.resolveLayerCache, refspec.String()) // no reference to this image. So reset the resolve status as well.
@@ -326,6 +339,12 @@ func (r *LayerManager) release(ctx context.Context, refspec reference.Spec, tocD
 		l, ok := r.layer[refspec.String()][tocDigest.String()]
 		if !ok {
 			return 0, fmt.Errorf("layer of digest %q/%q is not registered (ref=%d)", refspec, tocDigest, i)
+		}
+		if r.resolveLayerCache != nil && r.resolveLayerCache[refspec.String()] != nil {
+			// This layer is going to be discarded so reset its resolve status as well.
+			// Otherwise, while other layers of this image are still in use, the next
+			// lookup would believe that this layer is already resolved and cached.
+			delete(r.resolveLayerCache[refspec.String()], l.Info().Digest.String())
 		}
 		l.Done()
 		delete(r.layer[refspec.String()], tocDigest.String())
